@@ -12,29 +12,35 @@ def queuedCount (allowed : Bool) : Bool → List Sec → Nat
     else if !ini && allowed then queuedCount allowed true rest
     else 1 + queuedCount allowed ini rest
 
+theorem countValid_cons (a : Sec) (l : List Sec) :
+    countValid (a :: l) = (if a.valid = true then 1 else 0) + countValid l := by
+  unfold countValid
+  by_cases h : a.valid = true <;> simp [List.filter_cons, h]; omega
+
+theorem countValid_nil : countValid [] = 0 := rfl
+
 theorem queuedCount_true (allowed : Bool) (secs : List Sec) :
     queuedCount allowed true secs = countValid secs := by
   induction secs with
   | nil => rfl
   | cons a l ih =>
     unfold queuedCount
-    by_cases h : a.valid = true
-    · simp [h, ih, countValid, List.filter_cons]; omega
-    · simp [h, ih, countValid, List.filter_cons]
+    rw [countValid_cons]
+    by_cases h : a.valid = true <;> simp [h, ih]
 
 theorem queuedCount_false (allowed : Bool) (secs : List Sec) :
     queuedCount allowed false secs
       = if allowed = true ∧ countValid secs > 0 then countValid secs - 1 else countValid secs := by
   induction secs with
-  | nil => simp [queuedCount, countValid]
+  | nil => simp [queuedCount, countValid_nil]
   | cons a l ih =>
     unfold queuedCount
+    rw [countValid_cons]
     by_cases h : a.valid = true
-    · by_cases ha : allowed = true
-      · simp [h, ha, queuedCount_true, countValid, List.filter_cons]
-      · simp [h, ha, ih, countValid, List.filter_cons]; omega
-    · simp only [h, Bool.not_false, if_true] at *
-      simp [ih, countValid, List.filter_cons, h]
+    · cases allowed
+      · simp [h, ih]
+      · simp [h, queuedCount_true]
+    · simp [h, ih]
 
 /-- loop invariant of the inner loop of `processSlot` for slot `tid` (original occupant `x0`,
     state `s0` at loop entry) -/
@@ -63,13 +69,42 @@ theorem getD_of_getElem? {α} {l : List α} {i : Nat} {y d : α} (h : l[i]? = so
     l.getD i d = y := by
   simp [List.getD_eq_getElem?_getD, h]
 
+theorem ps_invalid (c : Counters) (tid : Nat) (pid : Option Nat) (l : PSLoop) (sec : Sec)
+    (hv : sec.valid = false) : processSecondary c tid pid l sec = l := by
+  simp [processSecondary, hv]
+
+theorem ps_inplace (c : Counters) (tid : Nat) (pid : Option Nat) (l : PSLoop) (sec : Sec)
+    (hv : sec.valid = true)
+    (hc : l.initialized = false ∧ (l.s.slots.getD tid Slot.empty).status ≠ .alive ∧
+      l.s.cfg.order ≠ .initCharge) :
+    processSecondary c tid pid l sec
+      = ⟨psInplace l.s tid (l.s.slots.getD tid Slot.empty) pid sec, l.offset, true⟩ := by
+  have : (¬ l.initialized = true ∧ (l.s.slots.getD tid Slot.empty).status ≠ .alive ∧
+      l.s.cfg.order ≠ .initCharge) := ⟨by simp [hc.1], hc.2⟩
+  simp only [processSecondary, hv, not_true_eq_false, if_false, if_pos this]
+
+theorem ps_push (c : Counters) (tid : Nat) (pid : Option Nat) (l : PSLoop) (sec : Sec)
+    (hv : sec.valid = true)
+    (hc : ¬ (l.initialized = false ∧ (l.s.slots.getD tid Slot.empty).status ≠ .alive ∧
+      l.s.cfg.order ≠ .initCharge)) :
+    processSecondary c tid pid l sec
+      = ⟨psPush c l.s tid (l.s.slots.getD tid Slot.empty) pid sec l.offset, l.offset - 1,
+         l.initialized⟩ := by
+  unfold processSecondary
+  have : ¬ (¬ l.initialized = true ∧ (l.s.slots.getD tid Slot.empty).status ≠ .alive ∧
+      l.s.cfg.order ≠ .initCharge) := by
+    intro ⟨h1, h2⟩
+    exact hc ⟨by simpa using h1, h2⟩
+  simp only [hv, not_true_eq_false, if_false, this]
+
 theorem processSecondary_inv {c : Counters} {tid : Nat} {x0 : Slot} {pid : Option Nat}
     {s0 : State} {l : PSLoop} (sec : Sec) (hI : PSInv c tid x0 pid s0 l)
     (hroom : queuedCount (allowedOf s0.cfg.order x0) l.initialized [sec] ≤ l.offset) :
-    let l' := processSecondary c tid pid l sec
-    PSInv c tid x0 pid s0 l' ∧
-    l'.offset = l.offset - queuedCount (allowedOf s0.cfg.order x0) l.initialized [sec] ∧
-    l'.initialized = (l.initialized || (allowedOf s0.cfg.order x0 && sec.valid)) := by
+    PSInv c tid x0 pid s0 (processSecondary c tid pid l sec) ∧
+    (processSecondary c tid pid l sec).offset
+      = l.offset - queuedCount (allowedOf s0.cfg.order x0) l.initialized [sec] ∧
+    (processSecondary c tid pid l sec).initialized
+      = (l.initialized || (allowedOf s0.cfg.order x0 && sec.valid)) := by
   obtain ⟨y, hy, hyact, hyev, hypos, hy0, hy1⟩ := hI.cur
   have htid : tid < l.s.slots.length := by
     rcases Nat.lt_or_ge tid l.s.slots.length with h | h
@@ -77,24 +112,26 @@ theorem processSecondary_inv {c : Counters} {tid : Nat} {x0 : Slot} {pid : Optio
     · rw [List.getElem?_eq_none h] at hy; cases hy
   have hyget : l.s.slots[tid] = y := by
     rw [List.getElem?_eq_getElem htid] at hy; exact Option.some.inj hy
+  have hgetD : l.s.slots.getD tid Slot.empty = y := getD_of_getElem? hy
+  have hevy : y.ev < l.s.trackCounters.length := by rw [hyev]; exact hI.evok
   by_cases hv : sec.valid = true
   case neg =>
-    simp only [processSecondary, hv, queuedCount]
-    simp
+    have hv' : sec.valid = false := by simpa using hv
+    rw [ps_invalid c tid pid l sec hv']
+    simp [queuedCount, hv']
     exact hI
   case pos =>
-    have hgetD : l.s.slots.getD tid Slot.empty = y := getD_of_getElem? hy
     by_cases hin : l.initialized = false ∧ allowedOf s0.cfg.order x0 = true
     case pos =>
       -- in-place initialisation
       obtain ⟨hin1, hin2⟩ := hin
       have hyx : y = x0 := hy0 hin1
-      have hcond : ¬ l.initialized = true ∧ y.status ≠ .alive ∧ l.s.cfg.order ≠ .initCharge := by
-        rw [hI.cfg, hyx]
+      have hcond : l.initialized = false ∧ (l.s.slots.getD tid Slot.empty).status ≠ .alive ∧
+          l.s.cfg.order ≠ .initCharge := by
+        rw [hgetD, hI.cfg, hyx]
         simp [allowedOf] at hin2
-        simp [hin1, hin2]
-      simp only [processSecondary, hv, hgetD, makeTrackId]
-      simp only [not_true_eq_false, if_false, hcond, and_self, if_true]
+        exact ⟨hin1, hin2.1, hin2.2⟩
+      rw [ps_inplace c tid pid l sec hv hcond, hgetD]
       have hq : queuedCount (allowedOf s0.cfg.order x0) l.initialized [sec] = 0 := by
         simp [queuedCount, hv, hin1, hin2]
       rw [hq]
@@ -102,60 +139,67 @@ theorem processSecondary_inv {c : Counters} {tid : Nat} {x0 : Slot} {pid : Optio
       have hyid : y.tid.isSome = true := hI.core.hasId y (List.mem_of_getElem? hy) hyact
       obtain ⟨told, htold⟩ := Option.isSome_iff_exists.mp hyid
       have hident : y.ident = ⟨y.ev, told, y.parent⟩ := by simp [Slot.ident, htold]
-      have hevy : y.ev < l.s.trackCounters.length := by rw [hyev]; exact hI.evok
       constructor
       · -- core
-        simp only [Nat.sub_zero]
-        have := core_inplace (s := l.s) (ni := c.numInitializers - l.offset) hI.core htid
+        have := core_inplace (s := l.s) (s' := psInplace l.s tid y pid sec)
+          (ni := c.numInitializers - l.offset) hI.core htid
           (y := { y with status := .initializing, tid := some (l.s.trackCounters.getD y.ev 0),
                          parent := pid, steps := 0, particle := sec.particle })
           (parent := pid) (by rw [hyget]; exact hyact) (by rw [hyget]; exact hevy)
           (by rw [hyget, hyev]; exact hI.par) (by simp [Slot.active])
           (by rw [hyget]; simp [Slot.ident, ctr]) (by simp)
-          (s' := _) (by rw [hyget]; rfl) (by rw [hyget]; rfl) rfl (by rw [hyget]; rfl)
-          (by rw [hyget, hident, htold]) (by rfl)
+          (by rw [hyget]; rfl) (by rw [hyget]; rfl) rfl (by rw [hyget]; rfl)
+          (by rw [hyget, hident]; simp [psInplace, mintSec, makeTrackId, htold]) (by rfl)
         exact this
       · exact hI.off_le
       · exact hI.cap
       · exact hI.cfg
-      · simp; exact hI.len
+      · simp [psInplace, mintSec, makeTrackId]; exact hI.len
       · exact hI.ilen
-      · simp; exact hI.tlen
+      · simp [psInplace, mintSec, makeTrackId]; exact hI.tlen
       · exact hI.plen
       · intro j hj
-        simp only
+        simp only [psInplace, mintSec, makeTrackId]
         rw [List.getElem?_set_ne (by omega)]
         exact hI.others j hj
-      · refine ⟨_, by simp [List.getElem?_set_self htid], by simp [Slot.active], by simp [hyev],
-          by simp [hypos], by simp, by simp⟩
+      · refine ⟨{ y with status := .initializing, tid := some (l.s.trackCounters.getD y.ev 0),
+                         parent := pid, steps := 0, particle := sec.particle }, ?_,
+          by simp [Slot.active], by simp [hyev], by simp [hypos], by simp, by simp⟩
+        simp only [psInplace, mintSec, makeTrackId]
+        rw [List.getElem?_set_self htid]
       · intro p hp
         obtain ⟨q, hq1, hq2⟩ := hI.par p hp
-        exact ⟨q, by simp [hq1], hq2⟩
+        exact ⟨q, by simp [psInplace, mintSec, makeTrackId, hq1], hq2⟩
       · exact hI.frame
-      · simp; exact hI.evok
+      · simp [psInplace, mintSec, makeTrackId]; exact hI.evok
     case neg =>
       -- push on the initializer stack
-      have hcond : ¬ (¬ l.initialized = true ∧ y.status ≠ .alive ∧ l.s.cfg.order ≠ .initCharge) := by
+      have hcond : ¬ (l.initialized = false ∧ (l.s.slots.getD tid Slot.empty).status ≠ .alive ∧
+          l.s.cfg.order ≠ .initCharge) := by
         intro ⟨h1, h2, h3⟩
         apply hin
-        have h1' : l.initialized = false := by simpa using h1
-        refine ⟨h1', ?_⟩
+        refine ⟨h1, ?_⟩
         rw [hI.cfg] at h3
-        rw [hy0 h1'] at h2
+        rw [hgetD, hy0 h1] at h2
         simp [allowedOf, h2, h3]
-      have hq : queuedCount (allowedOf s0.cfg.order x0) l.initialized [sec] = 1 := by
-        simp only [queuedCount, hv]
+      have hnot : l.initialized = true ∨ allowedOf s0.cfg.order x0 = false := by
         by_cases h1 : l.initialized = true
-        · simp [h1]
-        · have h1' : l.initialized = false := by simpa using h1
-          have : allowedOf s0.cfg.order x0 = false := by
-            by_contra h2
-            exact hin ⟨h1', by simpa using h2⟩
-          simp [h1', this]
-      rw [hq] at hroom ⊢
-      have hevy : y.ev < l.s.trackCounters.length := by rw [hyev]; exact hI.evok
+        · exact Or.inl h1
+        · right
+          have h1' : l.initialized = false := by simpa using h1
+          cases h2 : allowedOf s0.cfg.order x0
+          · rfl
+          · exact absurd ⟨h1', h2⟩ hin
+      have hq : queuedCount (allowedOf s0.cfg.order x0) l.initialized [sec] = 1 := by
+        rcases hnot with h1 | h1 <;> simp [queuedCount, hv, h1]
+      rw [hq] at hroom
+      rw [hq]
       have hlt : c.numInitializers - l.offset < l.s.initializers.length := by
         have := hI.off_le; have := hI.cap; omega
+      have hini : (l.initialized || (allowedOf s0.cfg.order x0 && sec.valid)) = l.initialized := by
+        rcases hnot with h1 | h1 <;> simp [h1]
+      rw [ps_push c tid pid l sec hv hcond, hgetD, hini]
+      refine ⟨?_, rfl, rfl⟩
       have hcore : ∀ s' : State, s'.trackCounters = l.s.trackCounters.set y.ev (ctr l.s y.ev + 1) →
           s'.created = l.s.created ++ [⟨y.ev, ctr l.s y.ev, pid⟩] →
           s'.initializers = l.s.initializers.set (c.numInitializers - l.offset)
@@ -168,48 +212,37 @@ theorem processSecondary_inv {c : Counters} {tid : Nat} {x0 : Slot} {pid : Optio
         have he : c.numInitializers - l.offset + 1 = c.numInitializers - (l.offset - 1) := by
           have := hI.off_le; omega
         rw [he] at this; exact this
-      have hini : (l.initialized || (allowedOf s0.cfg.order x0 && sec.valid)) = l.initialized := by
-        by_cases h1 : l.initialized = true
-        · simp [h1]
-        · have h1' : l.initialized = false := by simpa using h1
-          have : allowedOf s0.cfg.order x0 = false := by
-            by_contra h2
-            exact hin ⟨h1', by simpa using h2⟩
-          simp [h1', this]
-      simp only [processSecondary, hv, hgetD, makeTrackId]
-      simp only [not_true_eq_false, if_false, hcond]
-      rw [hini]
+      have hoff : l.offset - 1 ≤ c.numInitializers := by have := hI.off_le; omega
+      unfold psPush
+      simp only
       split
-      · -- parent slot recorded
-        refine ⟨?_, rfl, rfl⟩
-        constructor
+      · constructor
         · exact hcore _ rfl rfl rfl rfl rfl rfl
-        · have := hI.off_le; simp only; omega
-        · simp; exact hI.cap
+        · exact hoff
+        · simp [mintSec, makeTrackId]; exact hI.cap
         · exact hI.cfg
         · exact hI.len
-        · simp; exact hI.ilen
-        · simp; exact hI.tlen
-        · simp; exact hI.plen
+        · simp [mintSec, makeTrackId]; exact hI.ilen
+        · simp [mintSec, makeTrackId]; exact hI.tlen
+        · simp [mintSec, makeTrackId]; exact hI.plen
         · exact hI.others
         · exact ⟨y, hy, hyact, hyev, hypos, hy0, hy1⟩
         · exact hI.par
         · exact hI.frame
-        · simp; exact hI.evok
-      · refine ⟨?_, rfl, rfl⟩
-        constructor
+        · simp [mintSec, makeTrackId]; exact hI.evok
+      · constructor
         · exact hcore _ rfl rfl rfl rfl rfl rfl
-        · have := hI.off_le; simp only; omega
-        · simp; exact hI.cap
+        · exact hoff
+        · simp [mintSec, makeTrackId]; exact hI.cap
         · exact hI.cfg
         · exact hI.len
-        · simp; exact hI.ilen
-        · simp; exact hI.tlen
+        · simp [mintSec, makeTrackId]; exact hI.ilen
+        · simp [mintSec, makeTrackId]; exact hI.tlen
         · exact hI.plen
         · exact hI.others
         · exact ⟨y, hy, hyact, hyev, hypos, hy0, hy1⟩
         · exact hI.par
         · exact hI.frame
-        · simp; exact hI.evok
+        · simp [mintSec, makeTrackId]; exact hI.evok
 
 end CelerVerif.TrackInit
